@@ -95,6 +95,59 @@ def count_loc(class_node: ast.ClassDef, source: str) -> int:
     return len(code_lines)
 
 
+def count_c_style_code_lines(lines: list[str]) -> int:
+    """Count the lines that hold code in a language with // and /* */ comments.
+
+    Blank lines and lines consisting only of comments are not counted: line comments,
+    one-line block comments and every line of a multi-line block or doc comment.
+
+    Args:
+        lines: Source lines of the class (TypeScript, JavaScript or Rust)
+
+    Returns:
+        Number of lines with code on them
+    """
+    count = 0
+    in_block_comment = False
+    for line in lines:
+        code, in_block_comment = _strip_c_style_comments(line, in_block_comment)
+        if code.strip():
+            count += 1
+    return count
+
+
+def _strip_c_style_comments(line: str, in_block_comment: bool) -> tuple[str, bool]:
+    """Remove the comments from one line; returns the remaining code and the block state."""
+    code: list[str] = []
+    quote = ""
+    index = 0
+    while index < len(line):
+        if in_block_comment:
+            end = line.find("*/", index)
+            if end < 0:
+                return "".join(code), True
+            index, in_block_comment = end + 2, False
+        elif quote:
+            if line[index] == "\\":
+                code.append(line[index])
+                index += 1
+            elif line[index] == quote:
+                quote = ""
+            if index < len(line):
+                code.append(line[index])
+            index += 1
+        elif line.startswith("//", index):
+            break
+        elif line.startswith("/*", index):
+            index, in_block_comment = index + 2, True
+        else:
+            if line[index] in "\"`":
+                quote = line[index]
+            code.append(line[index])
+            index += 1
+    return "".join(code), in_block_comment
+
+
 def has_responsibility_keyword(class_name: str, keywords: list[str]) -> bool:
     """Check if class name contains responsibility keywords.
 
